@@ -10,11 +10,12 @@ from checks import simlib
 IMPL_SPEC = ("sim", True, ("-test.run", "TestSim", "-test.timeout", "0"), "SIM ")
 
 
-def project(res, fields):
-    """Keep only the observables the property is about (a break of another property's observable is not this one's)."""
+def project(res, fields, skip_views=()):
+    """Keep only the observables the property is about (a break of another property's observable is not this one's).
+    Views of ADD-PATH peers are not part of the model (skip_views)."""
     out = []
     for o in res:
-        peers = {n: {k: v for k, v in p.items() if k == "up" or k in fields} for n, p in o["peers"].items()}
+        peers = {n: {k: v for k, v in p.items() if k == "up" or (k in fields and not (k == "view" and n in skip_views))} for n, p in o["peers"].items()}
         d = {"peers": peers}
         if "rib" in fields:
             d["rib"] = o["rib"]
@@ -36,7 +37,7 @@ def mk_norms(fields):
                 peers[name] = {"up": p["up"], "view": p["view"], "adjin": {k: v[1] for k, v in p["adjin"].items()},
                                "counters": list(p["counters"]) if p["up"] else None}
             res.append({"peers": peers, "rib": {k: [list(x) for x in v] for k, v in o["rib"].items()}})
-        return project(res, fields)
+        return project(res, fields, [p.name for p in c["peers"] if p.sendmax])
 
     def norm_model(c, out):
         cm = simlib.canon_model(c, out)
@@ -49,7 +50,7 @@ def mk_norms(fields):
                 peers[name] = {"up": p["up"], "view": p["view"], "adjin": {k: v[1] for k, v in p["adjin"].items()},
                                "counters": [len(p["adjin"]), sum(1 for v in p["adjin"].values() if not v[0])] if p["up"] else None}
             res.append({"peers": peers, "rib": {k: [list(x) for x in v] for k, v in o["rib"].items()}})
-        return project(res, fields)
+        return project(res, fields, [p.name for p in c["peers"] if p.sendmax])
     return norm_impl, norm_model
 
 
@@ -79,16 +80,18 @@ def shrink_candidates(c):
         yield {"peers": c["peers"], "events": ev[:i] + ev[i + 1:]}
 
 
-def run(ctx, pid, oracle, name, assumptions, fields=("view", "adjin", "counters", "rib"), extra_trusted=(), kinds=("ebgp", "ibgp", "rr"), extra=None):
+def run(ctx, pid, oracle, name, assumptions, fields=("view", "adjin", "counters", "rib"), extra_trusted=(), kinds=("ebgp", "ibgp", "rr"), extra=None, addpath=0.0, extra_cases=None):
     norm_impl, norm_model = mk_norms(fields)
     proof = core.coq_properties(pid)
     ctx.say("proof stage: ok=%s theorems=%d audit=%d (%.1fs)" % (proof["ok"], len(proof["theorems"]), len(proof["audit"]), proof.get("wall_s", 0)))
-    n = ctx.scale(700, 20000)
-    cases = [simlib.gen_scenario(ctx.rng, kinds=kinds) for _ in range(n)]
+    n = ctx.scale(1500, 40000)
+    cases = [simlib.gen_scenario(ctx.rng, kinds=kinds, addpath=addpath) for _ in range(n)]
+    if extra_cases:
+        cases += extra_cases(ctx)
     cov = core.differential(ctx, "spk", proof, cases, simlib.sim_line, oracle, norm_impl=norm_impl, norm_model=norm_model,
                             model_line_of=simlib.model_line, shrink_candidates=shrink_candidates,
                             nontrivial=lambda c: sum(1 for e in c["events"] if e[0] in ("ann", "wd", "apiadd", "apidel")) >= 3,
-                            more_cases=lambda: [simlib.gen_scenario(ctx.rng, kinds=kinds) for _ in range(n)],
+                            more_cases=lambda: [simlib.gen_scenario(ctx.rng, kinds=kinds, addpath=addpath) for _ in range(n)],
                             correspondence_name=name, impl_spec=IMPL_SPEC, model_name="spk")
     pc = core.proof_coverage(proof)
     pc.update(cov)
